@@ -2,7 +2,7 @@
 """Blind-spot finder for the rules (a development aid, not a registered check).
 
 Generates simple single-token mutants of /repo's sources (operator swaps, boundary changes, small constants,
-dropped negations), applies each to a scratch copy, and runs all fourteen checks on it (HV_REPO).  A mutant that
+dropped negations) and one-line statement deletions, applies each to a scratch copy, and runs all fourteen checks on it (HV_REPO).  A mutant that
 does not compile is dropped.  A mutant on which every check stays silent is a *survivor*: either an equivalent
 mutant, code outside the fourteen properties, or a clause the rules do not pin.  Survivors are listed with file,
 line and the change so that they can be judged by reading.
@@ -63,6 +63,10 @@ def mutants(files, rnd):
                     new = code[: m.start()] + rep + code[m.end():] + l[len(code):]
                     if new != l:
                         ms.append({"file": f, "line": i, "old": l.strip(), "new": new.strip(), "text": new})
+            # statement deletion: a one-line statement that is not a declaration
+            st = code.strip()
+            if re.match(r"^(\*?[a-z_][A-Za-z0-9_.\[\]()&*]*\s*([-+*/%]?=)[^=]|[a-z_][A-Za-z0-9_.:]*(\.[a-z_]+)*\(|continue;|break;)", st) and st.endswith(";") and not st.startswith(("let ", "return", "use ", "pub ")) and st.count("(") == st.count(")"):
+                ms.append({"file": f, "line": i, "old": st, "new": "/* deleted */", "text": l[: len(l) - len(l.lstrip())] + "/* deleted */"})
     rnd.shuffle(ms)
     return ms
 
